@@ -471,6 +471,13 @@ def r11_7(ctx):
                 return None
             if l[0] == "field" and r[0] == "field" and l[2] == name and r[2] == name:
                 return (l[1], r[1])
+            # one side a field of a position, the other a value that was read from such a field earlier
+            # (`let best_root_move = mov.last_move; .. if mov.last_move == best_root_move`)
+            for a_, b_ in ((l, r), (r, l)):
+                if a_[0] == "field" and a_[2] == name and b_[0] in ("var", "mem", "arg"):
+                    from wa.expr import data_slice
+                    if any(strip_refs(x)[0] == "field" and strip_refs(x)[2] == name for x in data_slice(ex, b_)):
+                        return (a_[1], b_)
             return None
         sw = []
         for s in sorted(b.normal):
@@ -488,6 +495,21 @@ def r11_7(ctx):
             # writes of the ordering key control-dependent on the comparison
             eff = [loc for loc, st in b.iter_stmts() if st["k"] == "assign" and any(p.get("name") == "order_heuristic" for p in st["place"]["proj"] if p["k"] == "field")
                    and (loc[0] == true_t or b.edge_dominates((s, true_t), loc[0]))]
+            if not eff and "{closure" in fn:
+                # a predicate handed to find/position/any: its answer *is* the selection
+                rt = b.local_ty(0)
+                if rt == "bool":
+                    okc = bool(promo)
+                    for bb2, t2 in b.iter_calls():
+                        try:
+                            if field_cmp(ex.call_expr(t2, b.term_loc(bb2)), "pawn_promotion"):
+                                okc = True
+                        except Exception:
+                            pass
+                    ctx.ob("%s:best-move-identified-by-whole-descriptor#%d" % (fn.split("::", 1)[-1], n), okc, b.where(b.term_loc(s)),
+                           "the predicate that finds the previous best root move compares `last_move`%s" % (" and `pawn_promotion`" if okc else
+                           " alone: the four promotions of one pawn step are indistinguishable (see R11.7)"))
+                continue
             if not eff:
                 continue
             ok = False
@@ -502,3 +524,44 @@ def r11_7(ctx):
                    " alone: the four promotions of one pawn step are indistinguishable, so after an under-promotion was best (a knight promotion that mates) the next pass starts with - accepts and sends - the queen promotion; an expiry before the real best move is re-found plays it"))
     if n == 0:
         ctx.ob("get_best_move:best-move-identification", True, f.body(GBM).file, "no comparison of `last_move` selects a root move (whole positions or indices are used)", nontrivial=False)
+
+
+def r12_8(ctx):
+    """The remaining depth is extended only at the horizon (C12 "shallow search returns the exact minimax
+    value of its own evaluation"): the reference the property compares with searches every line to the same
+    nominal depth, extended only when the side to move is in check at depth 0.  Every write to the depth
+    parameter of alpha_beta_search must therefore be dominated by the `depth == 0` edge; any other extension
+    or reduction of the node's own depth (single-reply extensions, late-move reductions) changes the values
+    of the shallow iterations."""
+    from wa.expr import Exprs, strip_refs
+    from wa.cond import dominating_facts
+    f = ctx.facts
+    if not f.has_body(ABS):
+        raise AnchorMissing(ABS)
+    b = f.body(ABS)
+    ctx.note_fn(ABS)
+    ex = Exprs(b)
+    dps = [i for i in range(1, b.arg_count + 1) if b.local_ty(i) == "u8"]
+    if len(dps) != 1:
+        raise ShapeNotRecognised("alpha_beta_search: expected one u8 depth parameter, found %d" % len(dps))
+    dp = dps[0]
+    n = 0
+    for loc, st in b.iter_stmts():
+        if st["k"] != "assign" or st["place"]["local"] != dp or st["place"]["proj"] or loc[0] not in b.reachable:
+            continue
+        n += 1
+        at_horizon = False
+        for d, vals, excl, s, tg in dominating_facts(b, ex, loc[0]):
+            d0 = strip_refs(d)
+            if d0[0] == "bin" and d0[1] in ("Eq", "Ne"):
+                x, y = strip_refs(d0[2]), strip_refs(d0[3])
+                if y[0] != "const":
+                    x, y = y, x
+                if y == ("const", 0) and x[0] in ("arg", "var") and x[1] == dp:
+                    is_true = (vals == [1]) or (vals is None and excl == [0])
+                    if (d0[1] == "Eq") == is_true:
+                        at_horizon = True
+        ctx.ob("alpha_beta_search:depth-write#%d:only-at-horizon" % n, at_horizon, b.where(loc),
+               "`%s` %s" % (b.text_at(loc)[:60], "happens under `depth == 0` (the check extension at the horizon)" if at_horizon else
+               "changes the remaining depth of a node away from the horizon: lines are no longer searched to the nominal depth, the values of the shallow iterations differ from the reference minimax"))
+    ctx.info["R12.8"] = {"depth_writes": n}
